@@ -1,7 +1,35 @@
-(* C05 — Elasticsearch translation is reject-or-equivalent in boolean and nested meaning. *)
+(* C05 — Elasticsearch translation is reject-or-equivalent in boolean and nested meaning.
+   Statements, theorems, witnesses, non-vacuity examples, Print Assumptions only.
+   Builder model: model/{EsSpecs,EsCheck,EsBuild}.v (validated by correspondence on every run).
+   REFERENCE SEMANTICS (the trusted specification of this property): model/EsSem.v —
+     es_matches cfg j d : the document d matches the bool / nested / leaf query j (Elasticsearch);
+     den cfg t d        : the document d satisfies the luqum tree t (AND all, OR any, implicit the
+                          configured default, BoolOperation the Lucene boolean query, NOT / - the
+                          complement, a field path crossing nested boundaries = SOME object of the
+                          innermost boundary crossed satisfies the whole sub-query).
+   Lemmas: proofs/EsSemProofs.v.
+
+   Clauses of the property text:
+   (a) "the builder either raises one of its documented inconsistency exceptions ..."
+                                                                -> C05_reject (proved in full)
+   (b) "... or returns a bool/nested query that matches exactly the documents the tree denotes"
+                                                                -> C05_statement (with (a))
+       REFUTED on the unchanged code, three independent findings:
+         F6  a BoolOperation operand whose translation is an EMust / EMustNot item (an AND, an
+             implicit AND under default_operator=must, +x / NOT x under parentheses, a field or a boost)
+             or a BoolOperation is spliced into must / must_not;          C05_refuted (witness F6)
+         F8  a nested container without a leaf child is unknown to the builder: no nested clause
+             on it, so "the same object" is lost;                         C05_refuted_F8
+         F17 a term on the default field gets no nested clause when the default field lies under
+             a nested path.                                               C05_refuted_F17
+       PROVED for configurations without nested fields and trees without the F6 shape:
+                                                                -> C05_boolean_partial
+   The nested clause of (b) beyond that (C05_nested_partial) is not proved here; it is exercised on
+   the implementation by harness/c05.py on every run. *)
 Require Import Base Decimal Tree GenTree GenVisitors Visitor Json EsSpecs EsCheck EsBuild EsSpec EsSem
                TreeInd EsProofs EsSemProofs.
 
+(* ---- statements (full strength) *)
 Definition C05_statement : Prop :=
   forall cfg t, supported t = true -> wf_config cfg = true -> sem_config cfg = true ->
     match build cfg t with
@@ -9,19 +37,165 @@ Definition C05_statement : Prop :=
     | ROk j => forall d, es_matches cfg j d = den cfg t d
     end.
 
+(* (a) alone: on supported trees nothing but the three documented exceptions escapes *)
+Definition C05_reject_statement : Prop :=
+  forall cfg t e, supported t = true -> wf_config cfg = true ->
+    build cfg t = RExc e -> documented_inconsistency e.
+
+(* ---- the partial statement: the boolean skeleton in full
+   no_nested cfg            : no nested field is declared (not F8, not F17)
+   plain_tree cfg t         : every operand of a BoolOperation is +x / -x / NOT x, or is translated
+                              into something that is neither an EMust nor an EMustNot item and is
+                              not a BoolOperation (not F6); and no field is named "" or ".x"
+                              (the code takes those for fields under the nested path "" that an
+                              empty nested_fields specification flattens to) *)
+Definition C05_boolean_partial_statement : Prop :=
+  forall cfg t, supported t = true -> wf_config cfg = true -> sem_config cfg = true ->
+    no_nested cfg = true -> plain_tree cfg t = true ->
+    match build cfg t with
+    | RExc e => documented_inconsistency e
+    | ROk j => forall d, es_matches cfg j d = den cfg t d
+    end.
+
+(* ---- proofs *)
+Theorem C05_reject : C05_reject_statement.
+Proof. intros cfg t e Hs Hwf Hb. exact (build_exc_documented cfg t e Hs Hwf Hb). Qed.
+
+Theorem C05_boolean_partial : C05_boolean_partial_statement.
+Proof.
+  intros cfg t Hs Hwf Hsem Hnn Hb.
+  assert (Hnp : nested_paths cfg = []) by (unfold no_nested in Hnn; destruct (nested_paths cfg); [reflexivity|discriminate]).
+  destruct (build cfg t) as [j|e] eqn:Hbuild.
+  - exact (build_sem cfg t j Hs Hwf Hsem Hnp Hb Hbuild).
+  - exact (build_exc_documented cfg t e Hs Hwf Hbuild).
+Qed.
+
+(* ---- refutations of the full statement on the unchanged code *)
 Definition w (s : str) : item := Term KWord meta0 s.
+Definition fld (n : str) (e : item) : item := SearchField meta0 n e.
 Definition clause_match (f v : str) : json := JObj [(k_match, JObj [(f, JObj [(k_query, JStr v)])])].
 Definition s_text : str := [116;101;120;116]%N.
 
-(* F6: BoolOperation(a, AndOperation(x, y)); the document where only a holds *)
+Ltac refute cfg t d :=
+  let H := fresh "H" in
+  intros H; specialize (H cfg t eq_refl eq_refl eq_refl);
+  let j := fresh "j" in let Hb := fresh "Hb" in
+  destruct (build cfg t) as [j|?] eqn:Hb; [|vm_compute in Hb; discriminate Hb];
+  specialize (H d); vm_compute in Hb; inversion Hb; subst j; vm_compute in H; discriminate H.
+
+(* F6: BoolOperation(a, AndOperation(x, y)) -> {bool: {must: [x, y], should: [a]}};
+   the document where only a holds satisfies the tree, not the query *)
 Definition t_F6 : item := Op KBool meta0 [w [97]%N; Op KAnd meta0 [w [120]%N; w [121]%N]].
 Definition d_F6 : doc := doc_of (FDoc [clause_match s_text [97]%N] []).
 
 Theorem C05_refuted : ~ C05_statement.
+Proof. refute default_config t_F6 d_F6. Qed.
+
+(* F8: nested_fields = {'a': {'b': {'c': {}}}},  a:(b.c:x AND b.c:y)
+   -> must[nested(a.b, x), nested(a.b, y)]; two a objects, x in one, y in the other *)
+Definition cfg_F8 : es_config :=
+  mkEsConfig DShould s_text []
+             (SDict [([97]%N, SDict [([98]%N, SDict [([99]%N, SDict [])])])]) SNone SNone [] false.
+Definition t_F8 : item :=
+  fld [97]%N (Grp KFieldGroup meta0
+                  (Op KAnd meta0 [fld [98;46;99]%N (w [120]%N); fld [98;46;99]%N (w [121]%N)])).
+Definition s_abc : str := [97;46;98;46;99]%N.
+Definition d_F8 : doc :=
+  doc_of (FDoc [] [([97]%N, [FDoc [] [([97;46;98]%N, [FDoc [clause_match s_abc [120]%N] []])];
+                            FDoc [] [([97;46;98]%N, [FDoc [clause_match s_abc [121]%N] []])]])]).
+
+Theorem C05_refuted_F8 : ~ C05_statement.
+Proof. refute cfg_F8 t_F8 d_F8. Qed.
+
+(* F17: nested_fields = {'a': ['b']}, default_field = 'a.b', query  x  -> {match: {a.b: x}} at the root *)
+Definition cfg_F17 : es_config :=
+  mkEsConfig DShould [97;46;98]%N [] (SDict [([97]%N, SList [[98]%N])]) SNone SNone [] false.
+Definition d_F17 : doc := doc_of (FDoc [] [([97]%N, [FDoc [clause_match [97;46;98]%N [120]%N] []])]).
+
+Theorem C05_refuted_F17 : ~ C05_statement.
+Proof. refute cfg_F17 (w [120]%N) d_F17. Qed.
+
+(* the three witnesses are independent: each one has only its own shape *)
+Example witnesses_independent :
+  (no_nested default_config = true /\ plain_tree default_config t_F6 = false) /\
+  (no_nested cfg_F8 = false /\ plain_tree cfg_F8 t_F8 = true /\
+   level_of (nested_paths cfg_F8) (split_on c_dot (c_default_field cfg_F8)) = [] /\
+   nested_paths cfg_F8 <> nested_paths_code cfg_F8) /\
+  (no_nested cfg_F17 = false /\ plain_tree cfg_F17 (w [120]%N) = true /\
+   level_of (nested_paths cfg_F17) (split_on c_dot (c_default_field cfg_F17)) = [[97]%N]).
+Proof. vm_compute. repeat split; discriminate. Qed.
+
+(* ---- non-vacuity *)
+(* default operator must, a not-analysed field and field options; the query
+     (a:x~2 OR "p q"~3^2) AND NOT b:[1 TO 5] +c -d  as a tree: AND / OR / NOT / group / boost / ~,
+     a BoolOperation with +, - and an optional operand *)
+Definition cfg_ex : es_config :=
+  mkEsConfig DMust s_text [[98]%N] SNone (SList [[120;46;121]%N]) SNone
+             [([97]%N, [([97;110;97;108;121;122;101;114]%N, JStr [115;116;100]%N)])] false.
+Definition t_ex : item :=
+  Op KAnd meta0
+     [Grp KGroup meta0
+          (Op KOr meta0 [fld [97]%N (Fuzzy meta0 (w [120]%N) (mkDec false 2 0) false);
+                         Boost meta0 (Proximity meta0 (Term KPhrase meta0 [34;112;32;113;34]%N) 3 false)
+                               (mkDec false 2 0) false]);
+      Unary KNot meta0 (fld [98]%N (Range meta0 (w [49]%N) (w [53]%N) true true));
+      Grp KGroup meta0
+          (Op KBool meta0 [Unary KPlus meta0 (w [99]%N); Unary KProhibit meta0 (w [100]%N); w [101]%N;
+                           Grp KGroup meta0 (Op KOr meta0 [w [102]%N; w [103]%N])])].
+
+Example C05_guards_nonvacuous :
+  supported t_ex = true /\ wf_config cfg_ex = true /\ sem_config cfg_ex = true /\
+  no_nested cfg_ex = true /\ plain_tree cfg_ex t_ex = true /\
+  (exists j, build cfg_ex t_ex = ROk j).
+Proof. vm_compute. repeat split. eexists. reflexivity. Qed.
+
+(* the denotation is not trivial on it: a document satisfying it and one that does not *)
+Definition d_ex_yes : doc :=
+  doc_of (FDoc [JObj [(k_fuzzy, JObj [([97]%N, JObj [([97;110;97;108;121;122;101;114]%N, JStr [115;116;100]%N);
+                                                     (k_fuzziness, JNum (mkDec false 2 0));
+                                                     (k_value, JStr [120]%N)])])];
+                clause_match s_text [99]%N] []).
+Definition d_ex_no : doc := doc_of (FDoc [clause_match s_text [99]%N] []).
+
+Example C05_den_nontrivial :
+  den cfg_ex t_ex d_ex_yes = true /\ den cfg_ex t_ex d_ex_no = false /\
+  (forall j, build cfg_ex t_ex = ROk j ->
+             es_matches cfg_ex j d_ex_yes = true /\ es_matches cfg_ex j d_ex_no = false).
 Proof.
-  intros H. specialize (H default_config t_F6 eq_refl eq_refl eq_refl).
-  destruct (build default_config t_F6) as [j|e] eqn:Hb; [|vm_compute in Hb; discriminate].
-  specialize (H d_F6). vm_compute in Hb. inversion Hb; subst j. vm_compute in H. discriminate.
+  split; [vm_compute; reflexivity|]. split; [vm_compute; reflexivity|].
+  intros j Hj. vm_compute in Hj. inversion Hj; subst j. vm_compute. split; reflexivity.
 Qed.
 
+(* the three outcomes of (a) occur: a mix, a term on a nested container, an undeclared dotted field *)
+Definition cfg_rej : es_config :=
+  mkEsConfig DMust s_text [] (SDict [([97]%N, SList [[98]%N])]) (SList [[120;46;121]%N])
+             (SList [[120;46;121;46;114]%N]) [] false.
+Example C05_rejections :
+  build default_config (Op KAnd meta0 [w [97]%N; Op KOr meta0 [w [98]%N; w [99]%N]]) = RExc XMix /\
+  build cfg_rej (fld [97]%N (w [120]%N)) = RExc XNested /\
+  build cfg_rej (fld [120;46;122]%N (w [49]%N)) = RExc XObject.
+Proof. vm_compute. repeat split. Qed.
+
+(* nested meaning, evaluated in the model (not a theorem about all inputs):
+   a:(b:x AND c:y) with a nested -> one nested clause; it needs x and y in the SAME a object *)
+Definition cfg_n : es_config :=
+  mkEsConfig DShould s_text [] (SDict [([97]%N, SList [[98]%N; [99]%N])]) SNone SNone [] false.
+Definition t_n : item :=
+  fld [97]%N (Grp KFieldGroup meta0 (Op KAnd meta0 [fld [98]%N (w [120]%N); fld [99]%N (w [121]%N)])).
+Definition d_n_split : doc :=
+  doc_of (FDoc [] [([97]%N, [FDoc [clause_match [97;46;98]%N [120]%N] [];
+                            FDoc [clause_match [97;46;99]%N [121]%N] []])]).
+Definition d_n_same : doc :=
+  doc_of (FDoc [] [([97]%N, [FDoc [clause_match [97;46;98]%N [120]%N; clause_match [97;46;99]%N [121]%N] [];
+                            FDoc [] []])]).
+Example C05_nested_same_object :
+  exists j, build cfg_n t_n = ROk j /\
+    es_matches cfg_n j d_n_split = false /\ den cfg_n t_n d_n_split = false /\
+    es_matches cfg_n j d_n_same = true /\ den cfg_n t_n d_n_same = true.
+Proof. eexists. split; [vm_compute; reflexivity|]. vm_compute. repeat split. Qed.
+
+Print Assumptions C05_reject.
+Print Assumptions C05_boolean_partial.
 Print Assumptions C05_refuted.
+Print Assumptions C05_refuted_F8.
+Print Assumptions C05_refuted_F17.
